@@ -11,6 +11,7 @@ package internal
 //@ spec keyAt(idx []int, p int) int = ite(idx == nil, p, idx[p])
 
 //@ func IndexedMax
+//@ noauto
 //@ props C33
 //@ requires wfArr(list, indexes)
 //@ ensures [empty] iff(result == -1, len(list) == 0)
@@ -18,6 +19,7 @@ package internal
 //@ ensures [attained] implies(len(list) > 0, any(p, 0, len(list), keyAt(indexes, p) == result))
 
 //@ func CanonicalIndexes
+//@ noauto
 //@ props C33
 //@ ensures [nil-iff-dense] iff(result == nil, denseIdx(indexes))
 //@ ensures [same] result == nil || (result == indexes)
@@ -33,6 +35,7 @@ package internal
 
 
 //@ func SetIndexedElem
+//@ noauto
 //@ props C33
 //@ returns (rl, ri)
 //@ requires [wf] wfArr(list, indexes)
@@ -52,6 +55,7 @@ package internal
 //@ modifies list[*], indexes[*]
 
 //@ func DeleteIndexedElem
+//@ noauto
 //@ props C33
 //@ returns (rl, ri)
 //@ requires [wf] wfArr(list, indexes)
